@@ -175,5 +175,11 @@ package influxql
 //@   ensures 0 <= rd.i && rd.i < 3 && 0 <= rd.n && rd.n <= 3 && s.r == old(s.r)
 //@   ensures old(rd.n) > 0 && tok != BADSTRING && tok != BADESCAPE && tok != STRING ==> pos.Line == old(rd.buf[(rd.i-(rd.n-1)+3)%3].pos.Line) && pos.Char == old(rd.buf[(rd.i-(rd.n-1)+3)%3].pos.Char)
 //@   ensures old(rd.n) == 0 && tok != BADSTRING && tok != BADESCAPE && tok != STRING ==> pos.Line == old(rd.pos.Line) && pos.Char == old(rd.pos.Char)
+//   -- tiling: after an operator or punctuation token the next rune to be delivered is the one right
+//      after the token's text (one or two columns on, same line): no rune is skipped or delivered twice
+//@   let nextLine = ite(rd.n > 0, rd.buf[(rd.i-(rd.n-1)+3)%3].pos.Line, rd.pos.Line)
+//@   let nextChar = ite(rd.n > 0, rd.buf[(rd.i-(rd.n-1)+3)%3].pos.Char, rd.pos.Char)
+//@   ensures [C05] @onerune (old(rd.n) == 0 && !old(rd.eof)) && (local(ch0) == '+' || local(ch0) == '-' || local(ch0) == '*' || local(ch0) == '/' || local(ch0) == '%' || local(ch0) == '&' || local(ch0) == '|' || local(ch0) == '^' || local(ch0) == '=' || local(ch0) == '!' || local(ch0) == '<' || local(ch0) == '>' || local(ch0) == '(' || local(ch0) == ')' || local(ch0) == ',' || local(ch0) == ';' || local(ch0) == ':') && (tok == ADD || tok == SUB || tok == MUL || tok == DIV || tok == MOD || tok == BITWISE_AND || tok == BITWISE_OR || tok == BITWISE_XOR || tok == EQ || tok == LT || tok == GT || tok == LPAREN || tok == RPAREN || tok == COMMA || tok == SEMICOLON || tok == COLON) ==> (nextLine == pos.Line && nextChar == int(pos.Char + 1))
+//@   ensures [C05] @tworunes (old(rd.n) == 0 && !old(rd.eof)) && (local(ch0) == '+' || local(ch0) == '-' || local(ch0) == '*' || local(ch0) == '/' || local(ch0) == '%' || local(ch0) == '&' || local(ch0) == '|' || local(ch0) == '^' || local(ch0) == '=' || local(ch0) == '!' || local(ch0) == '<' || local(ch0) == '>' || local(ch0) == '(' || local(ch0) == ')' || local(ch0) == ',' || local(ch0) == ';' || local(ch0) == ':') && (tok == EQREGEX || tok == NEQREGEX || tok == NEQ || tok == LTE || tok == GTE || tok == DOUBLECOLON) ==> (nextLine == pos.Line && nextChar == int(pos.Char + 2))
 //   -- string tokens too (property as stated; see finding on scanString)
 //@   claims [C05] @strpos old(rd.n) == 0 && (tok == STRING || tok == BADSTRING) ==> pos.Line == old(rd.pos.Line) && pos.Char == old(rd.pos.Char)
